@@ -70,16 +70,42 @@ pub fn dump_text(d: &VerifDump) -> String {
 
 pub const GET_QTYPES: [u16; 7] = [1, 1, 16, 5, 2, 255, 252];
 
-/// one history; `ties` allows operations without a clock tick in between
+/// one history; `ties` allows operations without a clock tick in between.  The history runs under a
+/// watchdog; if an operation does not return, the case is the history so far with output `HANG`.
 pub fn history(r: &mut Rng, len: usize, ties: bool, out: &mut Out) {
+    use std::sync::{Arc, Mutex};
     let desired = *r.pick(&[1usize, 2, 3, 4, 6, 100]);
+    let rec: Arc<Mutex<(Vec<String>, Vec<String>)>> = Arc::new(Mutex::new((Vec::new(), Vec::new())));
+    let rec2 = rec.clone();
+    let mut r2 = r.fork();
+    let outcome = crate::watch::run(60, move || history_body(&mut r2, len, ties, desired, &rec2));
+    let (ops, mut outs) = {
+        let g = rec.lock().unwrap();
+        (g.0.clone(), g.1.clone())
+    };
+    match outcome {
+        crate::watch::Outcome::Done(()) => {}
+        crate::watch::Outcome::Panic => outs.push("PANIC".into()),
+        crate::watch::Outcome::Hang => outs.push("HANG".into()),
+    }
+    let cmd = if ties { "cache.hist-ties" } else { "cache.hist" };
+    out.case(&[cmd, &desired.to_string(), &ops.join("~")], &outs.join("~"));
+}
+
+fn history_body(
+    r: &mut Rng,
+    len: usize,
+    ties: bool,
+    desired: usize,
+    rec: &std::sync::Arc<std::sync::Mutex<(Vec<String>, Vec<String>)>>,
+) {
     let cache = SharedCache::with_desired_size(desired);
     let mut now: u64 = 1_000_000_000;
     verif::set_clock_nanos(now);
-    let mut ops: Vec<String> = Vec::new();
-    let mut outs: Vec<String> = Vec::new();
+    // an op is recorded BEFORE it runs, its output after it returned
+    let op = |s: String| rec.lock().unwrap().0.push(s);
+    let res = |s: String| rec.lock().unwrap().1.push(s);
     for _ in 0..len {
-        // clock
         if !(ties && r.chance(1, 3)) {
             let delta: u64 = match r.below(8) {
                 0 => 1,
@@ -92,64 +118,62 @@ pub fn history(r: &mut Rng, len: usize, ties: bool, out: &mut Out) {
             };
             now += delta;
             verif::set_clock_nanos(now);
-            ops.push(format!("t:{now}"));
-            outs.push("-".into());
+            op(format!("t:{now}"));
+            res("-".into());
         }
         match r.below(12) {
             0..=4 => {
                 let rr = crr(r);
+                op(format!("i:{}", c::rr(&rr)));
                 cache.insert(&rr);
-                ops.push(format!("i:{}", c::rr(&rr)));
-                outs.push("-".into());
+                res("-".into());
             }
             5 => {
                 if ties {
                     let k = r.range(1, 3);
                     let rrs: Vec<ResourceRecord> = (0..k).map(|_| crr(r)).collect();
+                    op(format!("ia:{}", c::rrs(&rrs)));
                     cache.insert_all(&rrs);
-                    ops.push(format!("ia:{}", c::rrs(&rrs)));
-                    outs.push("-".into());
+                    res("-".into());
                 }
             }
             6..=8 => {
                 let n = cname(r);
                 let qt = *r.pick(&GET_QTYPES);
+                op(format!("g:{}|{}", c::name(&n), qt));
                 let rrs = cache.get(&n, QueryType::from(qt));
-                ops.push(format!("g:{}|{}", c::name(&n), qt));
-                outs.push(if qt == 255 { c::rrs_sorted(&rrs) } else { c::rrs(&rrs) });
+                res(if qt == 255 { c::rrs_sorted(&rrs) } else { c::rrs(&rrs) });
             }
             9 => {
                 let n = cname(r);
                 let qt = *r.pick(&GET_QTYPES);
+                op(format!("gu:{}|{}", c::name(&n), qt));
                 let rrs = cache.get_without_checking_expiration(&n, QueryType::from(qt));
-                ops.push(format!("gu:{}|{}", c::name(&n), qt));
-                outs.push(if qt == 255 { c::rrs_sorted(&rrs) } else { c::rrs(&rrs) });
+                res(if qt == 255 { c::rrs_sorted(&rrs) } else { c::rrs(&rrs) });
             }
             10 => {
+                op("p".into());
                 let before = dump_text(&cache.verif_dump());
                 let (o, n, e, p) = cache.prune();
                 let after = dump_text(&cache.verif_dump());
-                ops.push("p".into());
-                outs.push(format!("{before}#{},{n},{e},{p}#{after}", if o { 1 } else { 0 }));
+                res(format!("{before}#{},{n},{e},{p}#{after}", if o { 1 } else { 0 }));
             }
             _ => {
-                ops.push("d".into());
-                outs.push(dump_text(&cache.verif_dump()));
+                op("d".into());
+                res(dump_text(&cache.verif_dump()));
             }
         }
     }
-    // always end with a prune and a dump
+    // always end with a prune
     now += 1;
     verif::set_clock_nanos(now);
-    ops.push(format!("t:{now}"));
-    outs.push("-".into());
+    op(format!("t:{now}"));
+    res("-".into());
+    op("p".into());
     let before = dump_text(&cache.verif_dump());
     let (o, n, e, p) = cache.prune();
     let after = dump_text(&cache.verif_dump());
-    ops.push("p".into());
-    outs.push(format!("{before}#{},{n},{e},{p}#{after}", if o { 1 } else { 0 }));
-    let cmd = if ties { "cache.hist-ties" } else { "cache.hist" };
-    out.case(&[cmd, &desired.to_string(), &ops.join("~")], &outs.join("~"));
+    res(format!("{before}#{},{n},{e},{p}#{after}", if o { 1 } else { 0 }));
 }
 
 pub fn run(r: &mut Rng, n: usize, out: &mut Out) {
